@@ -25,6 +25,14 @@ static const char *cfg_name(int c) { return c == 0 ? "reset communication" : c =
                                             c == 4 ? "reset node, 1017h in a stored communication parameter group" : "reset communication, 1017h in a stored communication parameter group"; }
 static int PARA;
 static int RESET_CS;
+/* --opt cbreset=1: the reset under test is not an NMT frame - the application resets the node from inside its heartbeat-consumer event callback
+ * (the usual reaction to a lost heartbeat); histories without a running monitor have no such callback and are not judged */
+static int CBRESET, cb_armed, cb_fired;
+static void c20_cb_hook(uint8_t kind, uint32_t a, uint32_t b, uint32_t c)
+{
+    (void)a; (void)b; (void)c;
+    if (kind == CB_HB_EVENT && cb_armed) { cb_armed = 0; cb_fired = 1; CONmtReset(&Node.Nmt, RESET_CS == 129 ? CO_RESET_NODE : CO_RESET_COM); }
+}
 
 static int SRV1;      /* --opt srv=1 (build with CO_SSDO_N=2): all SDO traffic of the histories and of the probes runs over the second server (640h/5C0h + node id) */
 static int build(int cfg)
@@ -43,6 +51,7 @@ static int build(int cfg)
     SRV1 = mc_opt("srv", 0); if (SRV1) NC.sdo_srv = 2;
     NC.operational = (cfg == 2);
     RESET_CS = (cfg == 1 || cfg == 3 || cfg == 4) ? 129 : 130;
+    CBRESET = mc_opt("cbreset", 0);
     /* cfg 4, 5: the heartbeat time lives in a parameter group that "save" writes to NVM: RAM and NVM can differ at the reset, and a
      * fresh start loads the NVM image - so must the reset (both kinds: reset node passes through reset communication) */
     PARA = NC.para = (cfg >= 4);
@@ -168,7 +177,7 @@ static void run_probe(int w, int p)
     default: break;
     }
     t_obs(w, 9);
-    t_add(w, "mode=%d id=%d emcy=%d> ", CONmtGetMode(&Node.Nmt), Node.NodeId, COEmcyCnt(&Node.Emcy));
+    t_add(w, "mode=%d id=%d emcy=%d reg=%02X> ", CONmtGetMode(&Node.Nmt), Node.NodeId, COEmcyCnt(&Node.Emcy), ErrReg);
     (void)CONodeGetErr(&Node);
 }
 
@@ -180,6 +189,12 @@ static void probe(void)
     w_save(S_cur);
     /* ---- A: the reset ---- */
     w_obs_clear();
+    if (CBRESET) {
+        w_cb_hook = c20_cb_hook; cb_armed = 1; cb_fired = 0;
+        for (int k = 0; k < 6 && !cb_fired; k++) w_tick(&Node, 1);
+        cb_armed = 0; w_cb_hook = 0;
+        if (!cb_fired) { w_restore(S_cur); return; }
+    } else
     nc_nmt((uint8_t)RESET_CS, 0);
     if (CONmtGetMode(&Node.Nmt) == CO_INIT || CONmtGetMode(&Node.Nmt) == CO_INVALID) { w_restore(S_cur); return; }   /* NMT commands are not served (not started): nothing to compare */
     (void)CONodeGetErr(&Node);
@@ -197,7 +212,7 @@ static void probe(void)
         memcpy(rc, RpCob, sizeof rc); memcpy(tc, TpCob, sizeof tc); memcpy(rm, RpMap, sizeof rm); memcpy(tm, TpMap, sizeof tm); memcpy(rt, RpType, 4); memcpy(tt, TpType, 4); memcpy(rn, RpNum, 4); memcpy(tn, TpNum, 4);
         memcpy(ti, TpInh, sizeof ti); memcpy(te, TpEvt, sizeof te); memcpy(b8, B8, 8); memcpy(w16, W16, sizeof w16); memcpy(dom, DomData, 20); memcpy(od, OD, sizeof od); memcpy(nvm, DRV.nvm, sizeof nvm);
         w_restore(S_pre);
-        HbTime = hb; for (int i = 0; i < 4; i++) { Hbc[i].Time = hc[i].t; Hbc[i].NodeId = hc[i].n; } SyncId = sid; SyncCycle = scy; EmcyId = eid; ErrReg = er;
+        HbTime = hb; for (int i = 0; i < 4; i++) { Hbc[i].Time = hc[i].t; Hbc[i].NodeId = hc[i].n; } SyncId = sid; SyncCycle = scy; EmcyId = eid; (void)er;      /* the error register 1001h is state, not configuration: a fresh node has no emergency and reads 0 */
         memcpy(RpCob, rc, sizeof rc); memcpy(TpCob, tc, sizeof tc); memcpy(RpMap, rm, sizeof rm); memcpy(TpMap, tm, sizeof tm); memcpy(RpType, rt, 4); memcpy(TpType, tt, 4); memcpy(RpNum, rn, 4); memcpy(TpNum, tn, 4);
         memcpy(TpInh, ti, sizeof ti); memcpy(TpEvt, te, sizeof te); A8 = a8; P8 = p8; memcpy(B8, b8, 8); A16 = a16; P16 = p16; memcpy(W16, w16, sizeof w16); A32 = a32; P32 = p32; N32 = n32; R32 = r32; W32 = w32;
         CsdoCobTx = ctx; CsdoCobRx = crx; CsdoNode = cn; memcpy(DomData, dom, 20);
